@@ -172,7 +172,63 @@ theorem hasUserinfo_bracket (h64 : 64 ∉ t) :
   apply hasUserinfo_plain
   simp [h64]
 
+/-- `[t]` and `[t]:port` pass the bracket test of `set_request_uri` when `t` has no bracket of
+its own and an unreserved zone identifier -/
+theorem literalOk_bracket (h91 : 91 ∉ t) (h93 : 93 ∉ t) (hz : zoneOk t = true) :
+    literalOk (plainJoin ([91] ++ t ++ [93]) port) = true := by
+  unfold literalOk
+  rw [bracket_shape]
+  have h1 : (91 :: (t ++ 93 :: portSuffix port)).contains 91 = true := by simp
+  rw [h1]
+  simp only [Bool.true_or, ↓reduceIte]
+  have h93' : 93 ∉ 91 :: t := by simp [h93]
+  have hb : before 93 (91 :: (t ++ 93 :: portSuffix port)) = 91 :: t :=
+    before_append (a := 91 :: t) _ h93'
+  have ha : after 93 (91 :: (t ++ 93 :: portSuffix port)) = portSuffix port :=
+    after_append (a := 91 :: t) _ h93'
+  rw [hb, ha]
+  have hz' : zoneOk (91 :: t) = true := by
+    simpa [zoneOk, after, dropUntil] using hz
+  have hps : portSuffix port = [] ∨ (portSuffix port).head? = some 58 := by
+    cases port <;> simp [portSuffix]
+  simp only [hz', List.head?_cons, BEq.rfl, List.drop_succ_cons, List.drop_zero,
+    contains_false_of_not_mem h91, Bool.not_false, Bool.true_and, Bool.and_true,
+    Bool.or_eq_true, beq_iff_eq, List.head?_eq_none_iff]
+  exact hps
+
 end bracket
+
+theorem literalOk_plain {n : Bytes} (h91 : 91 ∉ n) (h93 : 93 ∉ n) : literalOk n = true := by
+  unfold literalOk
+  simp [h91, h93]
+
+theorem zoneOk_iff {t : Bytes} : zoneOk t = true ↔ ∀ c ∈ after 37 t, isUnreserved c = true := by
+  simp [zoneOk, List.all_eq_true]
+
+/-- a text is what precedes its first `%`, that `%`, and what follows it -/
+theorem mem_cases_pct {t : Bytes} {c : Nat} (h : c ∈ t) :
+    c ∈ before 37 t ∨ c = 37 ∨ c ∈ after 37 t := by
+  by_cases h37 : 37 ∈ t
+  · have e := before_after_eq h37
+    rw [e] at h
+    simp only [List.mem_append, List.mem_cons] at h
+    exact h
+  · left
+    rw [before_of_not_mem h37]
+    exact h
+
+/-- unreserved characters are neither brackets, `@`, authority delimiters nor dropped white space -/
+theorem unreserved_facts {c : Nat} (h : isUnreserved c = true) :
+    c ≠ 91 ∧ c ≠ 93 ∧ c ≠ 64 ∧ c ≠ 37 ∧ c ≠ 47 ∧ c ≠ 63 ∧ c ≠ 35 ∧ c ≠ 9 ∧ c ≠ 10 ∧ c ≠ 13 ∧ c ≠ 58 := by
+  simp only [isUnreserved, isAlpha, isUpper, isLower, isDigit, Bool.or_eq_true, Bool.and_eq_true,
+    decide_eq_true_eq, beq_iff_eq] at h
+  omega
+
+/-- so are hex digits, colons and dots -/
+theorem addrChar_facts {c : Nat} (h : isHex c = true ∨ c = 58 ∨ c = 46) :
+    c ≠ 91 ∧ c ≠ 93 ∧ c ≠ 64 ∧ c ≠ 37 ∧ c ≠ 47 ∧ c ≠ 63 ∧ c ≠ 35 ∧ c ≠ 9 ∧ c ≠ 10 ∧ c ≠ 13 := by
+  simp only [isHex, isDigit, Bool.or_eq_true, Bool.and_eq_true, decide_eq_true_eq] at h
+  omega
 
 -- lower-casing ---------------------------------------------------------------------------
 
